@@ -393,3 +393,134 @@ def TASKS(tier):     # noqa: F811
                               '(remote_send stubbed: the framing is decided separately)' % (nm, ne), role='mux',
                        opts={'covers': ['sent']}))
     return ts
+
+
+# ------------------------------------------------------------------------------------ channel wrappers (select)
+
+class FlumeRx(PyObj):
+    """flume::Receiver holding the messages that have already arrived (FIFO); closed when `closed`"""
+    name = 'Receiver'
+
+    def __init__(self, tag, msgs):
+        self.tag, self.q = tag, list(msgs)
+        self.taken = []
+
+    def pop(self):
+        m = self.q.pop(0)
+        self.taken.append(m)
+        return m
+
+    def trait_call(self, ex, trait, method, args):
+        if method == 'try_recv':
+            return ok(self.pop()) if self.q else err(Enum('TryRecvError', 'Empty', 0, []))
+        if method in ('recv_timeout', 'recv_deadline'):
+            return ok(self.pop()) if self.q else err(Enum('RecvTimeoutError', 'Timeout', 0, []))
+        if method == 'recv':
+            if not self.q:
+                raise Violation('blocking recv on a channel on which nothing will arrive')
+            return ok(self.pop())
+        if method in ('is_empty',):
+            return not self.q
+        if method == 'len':
+            return Int('usize', len(self.q))
+        raise Unsupported('FlumeRx %s' % method)
+
+
+class FlumeSelector(PyObj):
+    """flume::Selector: `wait` returns the handler result of one READY receiver (any of them: fork); `wait_timeout`
+    times out only when none is ready"""
+    name = 'Selector'
+
+    def __init__(self):
+        self.arms = []
+
+    def trait_call(self, ex, trait, method, args):
+        if method == 'recv':
+            self.arms.append((deref(args[1]), args[2]))
+            return self
+        if method in ('wait', 'wait_timeout', 'wait_deadline'):
+            ready = [(rx, f) for rx, f in self.arms if rx.q]
+            if not ready:
+                if method == 'wait':
+                    raise Violation('blocking select on channels on which nothing will arrive')
+                return err(Enum('SelectError', 'Timeout', 0, []))
+            rx, f = ready[ex.choose(len(ready), 'select: which ready channel') if len(ready) > 1 else 0]
+            r = ex.call_value(f, [ok(rx.pop())])
+            return r if method == 'wait' else ok(r)
+        raise Unsupported('FlumeSelector %s' % method)
+
+
+def select_harness(w, na, nb, timed):
+    """channel::Receiver::select / select_timeout (what the two-input Start receives through) called until both
+    channels are drained: every message that had arrived on either channel is returned exactly once, in FIFO order per
+    channel, tagged with the right side; a timeout is reported only when neither channel has a message"""
+    fn = w.impls[(None, 'Receiver')]['select_timeout' if timed else 'select']
+    fn = [f for f in fn if 'channel' in f.name and 'Unbounded' not in f.header.split('(')[1].split(',')[0]][0]
+    w.models['Selector::new'] = lambda ex, c, a: FlumeSelector()
+
+    def h(ex):
+        if ex.env.get('native'):
+            runner, prof = ex.env['native']
+            ex.env['native_used'] = True
+            tmo = next((v for k, v in (ex.env.get('pin') or {}).items() if k.startswith('timeout_ns')), 200000)
+            txt = runner('chan_select', [int(timed), int(tmo) if timed else 0, na, nb])[prof]
+            ex.env['native_out'] = txt
+            if txt == 'PANIC' or txt.startswith(('BADARGS', 'UNKNOWN', 'NORESULT')):
+                raise Unsupported('native driver: ' + txt)
+            got = txt.split()
+            judge(ex, [t for t in got if t != 'T'], got.count('T'), {'native': txt})
+            return {'native': txt}
+        qa = FlumeRx('A', [Int('u64', 100 + i) for i in range(na)])
+        qb = FlumeRx('B', [Int('u64', 200 + i) for i in range(nb)])
+        ra = Agg('struct', 'channel::Receiver', [qa], ['0'])
+        rb = Agg('struct', 'channel::Receiver', [qb], ['0'])
+        got, timeouts = [], 0
+        tmo = None
+        if timed:
+            tmo = ex.fresh_int('u64', 'timeout_ns')
+            ex.assume(z3.And(z3.UGE(tmo.v, 1000), z3.ULE(tmo.v, 1000000000)))
+        for _ in range(na + nb + 2):
+            if not qa.q and not qb.q:
+                break
+            r = ex.call_function(fn, [Ref([ra], 0), Ref([rb], 0)] + ([tmo] if timed else []))
+            if timed:
+                if r.variant != 'Ok':
+                    timeouts += 1
+                    continue
+                r = r.fields[0]
+            inner = r.fields[0]
+            if inner.variant != 'Ok':
+                raise Violation('select reports a closed channel although messages are pending', hlib._wit(ex))
+            got.append('%s%d' % (r.variant, inner.fields[0].v))
+        judge(ex, got, timeouts, {'received': got, 'timeouts': timeouts, 'left_in_A': len(qa.q), 'left_in_B': len(qb.q),
+                                  'taken_from_A': [m.v for m in qa.taken], 'taken_from_B': [m.v for m in qb.taken]})
+        hlib.cover(ex, 'drained')
+        return {'received': got}
+
+    def judge(ex, got, timeouts, extra):
+        wa = ['A%d' % (100 + i) for i in range(na)]
+        wb = ['B%d' % (200 + i) for i in range(nb)]
+        if [g for g in got if g.startswith('A')] != wa or [g for g in got if g.startswith('B')] != wb:
+            raise Violation('select over two channels: received %s, the channels held %s and %s (a message was lost, '
+                            'duplicated, reordered or attributed to the wrong side)' % (got, wa, wb), hlib._wit(ex), extra)
+        if timeouts:
+            raise Violation('select_timeout reported %d timeout(s) although a message was pending' % timeouts,
+                            hlib._wit(ex), extra)
+    return h
+
+
+_mux_tasks = TASKS
+
+
+def TASKS(tier):     # noqa: F811
+    ts = _mux_tasks(tier)
+    for timed in (False, True):
+        for na, nb in ([(2, 2)] if tier == 'quick' else [(2, 2), (3, 2), (1, 3)]):
+            ts.append(Task('select_%s_%dx%d' % ('timeout' if timed else 'blocking', na, nb), 'select_harness',
+                           {'na': na, 'nb': nb, 'timed': timed},
+                           bounds='channel::Receiver::%s called until two channels holding %d and %d messages are drained; '
+                                  'flume::Selector modelled (any ready channel may be chosen)%s' %
+                                  ('select_timeout' if timed else 'select', na, nb,
+                                   ', timeout symbolic in 1 us .. 1 s' if timed else ''), role='channel_select',
+                           opts={'covers': ['drained']}))
+    return ts
